@@ -123,6 +123,11 @@ def run(run, replay=None):
     unit = build_verus(run)
     res = unit.run(rlimit=60)
     run.add_verus(unit, res, cex_finder=lambda f: first_finding(cex.explore(run, 20)), expect_fail=tuple(run.extra.get('vacuity_probe_labels', ())))
+    from units.C18 import kani as _kani
+    _kani.run_kani(run)
+    for f in run.failed:
+        if f.get("backend") == 'kani' and not f.get("cex") and not f.get("cex_finder"):
+            f["cex_finder"] = lambda ff: first_finding(cex.explore(run, 20))
     run.bounded_note = "the walk over the HIR (JsonGenerator::transpile_expr / transpile_def / expr_into_value), containers, numbers and the top-level object are covered only by the bounded run-time-checked contract (coverage.bounded_contract_on_json_target), not counted in the obligations"
     run.assumptions.append("str::chars and String::push carry assumed std contracts. Number formatting (i32/u64 to_string, f64 Debug for finite values) is std's and is only exercised by the bounded contract. JSON is RFC 8259; \\uXXXX escapes in the surrogate range are outside the spec-level decoder (the serializer writes such characters unescaped).")
     run.assumptions.append("JsonGenerator::transpile_expr, transpile_def, register_def, expr_into_value and the container arms of push_json_value: textual anchors and a BOUNDED run-time-checked contract only (generated modules through the real `erg transpile --target json`, read back with Python's json module).")
